@@ -47,6 +47,15 @@ def run(ctx):
     ctx.need("R17.1", "split", len(split), 1)
     ctx.need("R17.1", "replace_all", len(repl), 1)
     nloops = 0
+    # scan direction: occurrences are chosen in ONE left-to-right pass (for self-overlapping patterns a pass from the right
+    # picks different occurrences: "aaa"/"aa" -> "ab" instead of "ba")
+    for f in split + repl:
+        back = [n for _, _, e in f.roots() for n in walk(e["expr"]) if n.get("k") == "call" and short(n.get("name") or "") in ("rfind", "find_last_of", "find_last_not_of", "find_end", "rbegin", "crbegin")]
+        if back:
+            ctx.bad("R17.2", f, "scans-left-to-right", "%s searches from the right (%s): when occurrences of the pattern overlap, a different set of occurrences is chosen than by the single "
+                    "left-to-right pass the law describes" % (short(f.qual), ", ".join(sorted({fmt(n)[:50] for n in back}))), (f, back[0].get("ln")))
+        else:
+            ctx.ok("R17.2", f, "scans-left-to-right", "no backward search primitive in %s" % short(f.qual), f)
     for f in split + repl:
         IN, before = fe.analyse(f)
         loops = cfg.loop_blocks(f)
